@@ -36,7 +36,7 @@ ANCHOR_FILES = ("_core", "_namespace", "_typehints", "_util", "_common")
 NO_SHRINK = ("parser/opts", "parser/opts/*", "world", "world/*")
 SHRINK_DICTS = ("ops/*/obj", "ops/*/env", "ops/*/base", "ops/*/ns")
 
-FEATS = ["l", "ll", "d", "dl", "t", "st", "tl", "x", "n", "p", "inner", "dd", "dg", "obj", "objs", "dobjs", "odobjs", "holder", "model", "pr"]
+FEATS = ["l", "ll", "d", "dl", "t", "st", "tl", "x", "n", "p", "inner", "dd", "dg", "obj", "objs", "dobjs", "odobjs", "holder", "model", "pr", "sd", "dcf"]
 
 
 def parser_spec(feats, eoe):
@@ -86,7 +86,20 @@ def parser_spec(feats, eoe):
     if "model" in feats:
         A.append({"k": "class", "cls": "Model", "name": "model"})
         A.append({"k": "link", "src": "a", "dst": "model.width", "fn": "double"})
-    return {"opts": {"exit_on_error": eoe}, "args": A, "feats": sorted(feats)}
+    opts = {"exit_on_error": eoe}
+    if "sd" in feats:
+        vals = {}
+        if "l" in feats:
+            vals["l"] = [7, 8]
+        if "d" in feats:
+            vals["d"] = {"s": 2}
+        if "t" in feats:
+            vals["t"] = {"__tuple__": [[4], 5]}
+        if vals:
+            A.append({"k": "set_defaults", "values": vals})
+    if "dcf" in feats:
+        opts["default_config_files"] = ["$W/dflt.yaml"]
+    return {"opts": opts, "args": A, "feats": sorted(feats)}
 
 
 SUB1 = {"class_path": "dsim.simtypes.Sub1", "init_args": {"n": 1, "opts": {"z": 1}, "child": {"class_path": "dsim.simtypes.Base", "init_args": {"tags": [5]}}}}
@@ -204,6 +217,7 @@ def generate(rng, tier):
         "A/B/qb.txt": "x",
         "A/bad.yaml": json.dumps(dict({"a": 2}, **({"inner": "B/innerbad.yaml"} if "inner" in feats else {"a": "bad"}))),
         "A/B/innerbad.yaml": "q: missing.txt\n",
+        "dflt.yaml": json.dumps(dict({"a": 3}, **({"l": [5, 6]} if "l" in feats else {}), **({"dl": {"m": [2]}} if "dl" in feats else {}), **({"obj": {"class_path": "dsim.simtypes.Base", "init_args": {"tags": [3]}}} if "obj" in feats else {}))),
     }
     w = {"dirs": ["home", "run", "A/B", "out"], "files": files, "cwd": ".", "env": {}}
     sweep = {"op": rng.randrange(nops), "max_sites": 40 if tier == "quick" else 80, "cb_cls": rng.choice(["ValueError", "TypeError", "RuntimeError", "KeyError", "OSError", "SimAbort"]), "errno": rng.choice(["EACCES", "ENOENT", "EIO", "EMFILE"]), "adversary": rng.choice(["delete", "chmod0", "mkdir", "truncate"])}
